@@ -65,3 +65,56 @@ Proof.
     repeat (rewrite ?andb_true_r, ?orb_true_r, ?andb_true_l, ?orb_true_l; simpl); try reflexivity;
     destruct (a =? b)%N, (c =? d)%N, (a =? c)%N, (a =? d)%N, (b =? c)%N, (b =? d)%N, (c =? a)%N, (d =? a)%N, (c =? b)%N, (d =? b)%N; reflexivity.
 Qed.
+
+(** * the proposed repair *)
+(** Quartet.HashCode with the second compare-exchange turned the right way
+    (if i4 < i3 { i3, i4 = i4, i3 }): a 5-comparator sorting network *)
+Definition sort4 (i1 i2 i3 i4 : Z) : Z * Z * Z * Z :=
+  let '(i1, i2) := cswap_lt i1 i2 in
+  let '(i3, i4) := cswap_lt i3 i4 in
+  let '(i1, i3) := cswap_lt i1 i3 in
+  let '(i2, i4) := cswap_lt i2 i4 in
+  let '(i2, i3) := cswap_lt i2 i3 in (i1, i2, i3, i4).
+Definition q_hash_code_fixed (q : quartet) : N :=
+  let '(i1, i2, i3, i4) := sort4 (to_int (qt1 q)) (to_int (qt2 q)) (to_int (qt3 q)) (to_int (qt4 q)) in
+  w64 (31 * w64 (31 * w64 (31 * w64 (31 + of_int i1) + of_int i2) + of_int i3) + of_int i4).
+
+Ltac brute := unfold sort4, cswap_lt;
+  repeat match goal with |- context[(?x <? ?y)%Z] => destruct (Z.ltb_spec x y) end;
+  try (repeat f_equal; lia).
+
+Lemma t12 : forall a b c d, sort4 a b c d = sort4 b a c d.
+Proof. intros. brute. Qed.
+Lemma t23 : forall a b c d, sort4 a b c d = sort4 a c b d.
+Proof. intros. brute. Qed.
+Lemma t34 : forall a b c d, sort4 a b c d = sort4 a b d c.
+Proof. intros. brute. Qed.
+
+(** every permutation is a product of at most six adjacent transpositions *)
+Ltac psearch n :=
+  reflexivity ||
+  match n with
+  | S ?m =>
+    match goal with
+    | |- sort4 ?a ?b ?c ?d = _ =>
+      (rewrite (t12 a b c d); psearch m) || (rewrite (t23 a b c d); psearch m) || (rewrite (t34 a b c d); psearch m)
+    end
+  end.
+
+Lemma hash_equals_sort4 : forall q q',
+    q_hash_equals q q' = true ->
+    sort4 (to_int (qt1 q)) (to_int (qt2 q)) (to_int (qt3 q)) (to_int (qt4 q)) =
+    sort4 (to_int (qt1 q')) (to_int (qt2 q')) (to_int (qt3 q')) (to_int (qt4 q')).
+Proof.
+  intros [a1 a2 a3 a4] [b1 b2 b3 b4]. unfold q_hash_equals, q_compare. simpl.
+  repeat match goal with |- context[if ?c then _ else _] => destruct c eqn:? end; try discriminate; intros _;
+    match goal with H : _ = true |- _ =>
+      rewrite !andb_true_iff, !orb_true_iff, !andb_true_iff, !N.eqb_eq in H; clear - H;
+      destruct H as [[[? ?]|[? ?]] [[? ?]|[? ?]]]; subst end;
+    generalize (to_int b1) (to_int b2) (to_int b3) (to_int b4); intros.
+  all: timeout 60 psearch 6.
+Qed.
+
+Theorem quartet_hash_compat_fixed : forall q q',
+    q_hash_equals q q' = true -> q_hash_code_fixed q = q_hash_code_fixed q'.
+Proof. intros q q' H. unfold q_hash_code_fixed. now rewrite (hash_equals_sort4 q q' H). Qed.
